@@ -64,6 +64,14 @@ def bullet_cases(lengths):
             yield ('ur-end', b, n, [' ' * n + b] + gen.diag('/', n, '/'), (n, 0))
             yield ('h-mid', b, n, ['-' * n + b + '-' * n], (n, 0))
             yield ('v-mid', b, n, ['|'] * n + [b] + ['|'] * n, (0, n))
+            # the same on dashed lines
+            yield ('right-end-dashed', b, n, ['~' * n + b], (n, 0))
+            yield ('left-end-dashed', b, n, [b + '~' * n], (0, 0))
+            yield ('h-mid-dashed', b, n, ['~' * n + b + '~' * n], (n, 0))
+            if n >= 2:
+                for ch in ':!':
+                    yield ('down-end-dashed', b, n, [ch] * n + [b], (0, n))
+                    yield ('up-end-dashed', b, n, [b] + [ch] * n, (0, 0))
 
 
 def combo_cases(lengths):
